@@ -571,6 +571,20 @@ func (c *Ctx) dischargeIndex(s *PanicSite, depth int) (bool, string) {
 				return true, "slice made with the length of the ranged value"
 			}
 		}
+		// (b') X was made with len(T)-k and the loop ranges over T[k:]
+		if ms := makeSliceOf(s.X); ms != nil {
+			if sl, ok := l.RangeOf.(*ssa.Slice); ok && sl.High == nil && sl.Max == nil && sl.Low != nil {
+				if k, ok := constInt(sl.Low); ok && k >= 0 {
+					if bo, ok := ms.Len.(*ssa.BinOp); ok && bo.Op == token.SUB {
+						if k2, ok := constInt(bo.Y); ok && k2 == k {
+							if y := lenArg(bo.X); y != nil && o.sameValue(y, sl.X) {
+								return true, "slice made with len(T)-k, ranged over T[k:]"
+							}
+						}
+					}
+				}
+			}
+		}
 		// the two collections were compared for equal length on the way
 		eq := &Cond{Name: "equal lengths", Match: func(f *Fact, o2 *Origins) bool {
 			if f.Kind != "cmp" || f.Op.String() != "==" || !f.Pos {
